@@ -58,6 +58,11 @@ def L8.Canon (a : L8) : Prop := a.U32 ∧ a.val < N
 /-- 32 bytes, most significant first, each a number -/
 def bytesVal (b : List Nat) : Nat := b.foldl (fun acc x => acc * 256 + x) 0
 
+/-- little-endian 32-bit words to a number: Σ tᵢ·2^(32i) -/
+def bytesVal32 : List Nat → Nat
+  | [] => 0
+  | x :: xs => x + 2^32 * bytesVal32 xs
+
 def AllLt (bound : Nat) (l : List Nat) : Prop := ∀ x ∈ l, x < bound
 
 end Secp.Limbs
